@@ -20,11 +20,11 @@ func sig(inv, what string) map[string]string {
 func invariants(o *Obs) *Diff {
 	where := fmt.Sprintf("%s broker, script %s", o.Broker, describe(o.Trace))
 	for _, g := range o.Garbled {
-		what := "unexpected_ad_on_broker_connection"
 		if strings.Contains(g, "unreadable") {
-			what = "garbled_message_on_broker_connection"
+			return &Diff{Sig: sig("WritesSerialised", "garbled_message_on_broker_connection"), Detail: where + ": " + g}
 		}
-		return &Diff{Sig: sig("WritesSerialised", what), Detail: where + ": " + g}
+		// a well-formed ad that is neither a heartbeat nor the result of a request the broker forwarded
+		return &Diff{Sig: sig("ReplyMatchesOutcome", "unattributable_ad_on_broker_connection"), Detail: where + ": " + g}
 	}
 	if len(o.BadReg) > 0 {
 		return &Diff{Sig: sig("PresentsLastCookie", "registration_ad_without_command_or_name"), Detail: where + ": registration ad " + o.BadReg[0]}
@@ -233,6 +233,25 @@ func Compare(t *Table, o *Obs) *Diff {
 			continue
 		}
 		e := o.Trace[i-1]
+		if e.E == "reg" && i >= 2 {
+			// a registration nothing in the script accounts for: since the last grant the
+			// broker neither dropped the connection nor sent anything unreadable
+			cause := false
+			j := i - 2
+			for ; j >= 0; j-- {
+				p := o.Trace[j]
+				if p.E == "drop" || (p.E == "snd" && p.M == "malformed") {
+					cause = true
+				}
+				if p.E == "ans" {
+					break
+				}
+			}
+			if j >= 0 && !cause && (o.Trace[j].A == "fresh" || o.Trace[j].A == "same" || o.Trace[j].A == "nocookie") {
+				return &Diff{Sig: sig("KeepsRegistration", "reconnect_without_cause"),
+					Detail: fmt.Sprintf("%s broker, script %s: the listener gave up its registration and registered again (step %d) although the broker had kept the connection up and sent only well-formed messages", o.Broker, describe(o.Trace), i)}
+			}
+		}
 		if e.E == "reg" {
 			for _, alt := range []string{"none", "last"} {
 				if alt == e.P {
